@@ -411,6 +411,20 @@ def gen_scopes(parts, vsp, ac, sa, fc):
                  f'def watchesUseActionLimits : Bool := {lim}\n'
                  f'def logUsesActionCache : Bool := {"true" if log_cache else "false"}\n'
                  f'def logUsesActionLimits : Bool := {"true" if log_limits else "false"}\n')
+    # channels between actions other than cache and table: the limits object
+    cc_ = find_def(sa, 'SnapshotActionContext.collection_config')
+    first = [x for x in body_no_doc(cc_)][0]
+    fresh = ast.unparse(first) == 'config = VariableProcessorConfig()'
+    n_args = [len(n.args) + len(n.keywords) for f_ in (find_def(ac, 'ActionContext.eval_watch'),
+                                                       find_def(ac, 'ActionContext.process_capture_variable'),
+                                                       find_def(fc, 'FrameCollector._process_frame'))
+              for n in ast.walk(f_) if isinstance(n, ast.Call) and ast.unparse(n.func) == 'VariableSetProcessor']
+    parts.append('/-- `collection_config` builds a NEW `VariableProcessorConfig` on every read (no limits object shared between\n'
+                 '    actions or threads) -/\n'
+                 f'def configFreshPerRead : Bool := {"true" if fresh else "false"}\n'
+                 '/-- every `VariableSetProcessor` is given its config explicitly (the shared default-argument instance of its\n'
+                 '    constructor is never used) -/\n'
+                 f'def processorsGetConfig : Bool := {"true" if n_args and all(k == 3 for k in n_args) else "false"}\n')
     # hold(): processed roots are kept alive while the cache is in use
     pv = find_def(vsp, 'VariableSetProcessor.process_variable')
     b = body_no_doc(pv)
@@ -475,15 +489,56 @@ def gen_scopes(parts, vsp, ac, sa, fc):
     for l in need:
         if l not in src:
             raise Untranslatable('_process_frame: missing `%s`' % l)
+    # the class name of `self`: guarded read or not
+    guarded = None
+    for n in ast.walk(pf):
+        if isinstance(n, ast.If) and ast.unparse(n.test).startswith('_self is not None'):
+            test = ast.unparse(n.test)
+            if test == "_self is not None and hasattr(_self, '__class__')" \
+                    and [ast.unparse(x) for x in n.body] == ['class_name = _self.__class__.__name__']:
+                guarded = False       # hasattr() only swallows AttributeError: any other exception of the read escapes
+            elif test == '_self is not None' and len(n.body) == 1 and isinstance(n.body[0], ast.Try):
+                t = n.body[0]
+                if ([ast.unparse(x) for x in t.body] == ['class_name = _self.__class__.__name__'] and len(t.handlers) == 1
+                        and t.handlers[0].type is not None and ast.unparse(t.handlers[0].type) in ('BaseException', 'Exception')
+                        and [ast.unparse(x) for x in t.handlers[0].body] == ['class_name = None']
+                        and not t.orelse and not t.finalbody):
+                    guarded = True
+    if guarded is None:
+        raise Untranslatable('_process_frame: the class-name read of `self` changed shape')
+    parts.append('/-- `_process_frame` reads `_self.__class__.__name__` inside try/except (a read that raises gives no class name);\n'
+                 '    false = the read is only behind `hasattr`, which lets every exception but AttributeError escape -/\n'
+                 f'def selfClassGuarded : Bool := {"true" if guarded else "false"}\n')
     parts.append('/-- `_process_frame` collects the frame as one dict named "locals", removes that entry from the table and\n'
                  '    puts its children on the frame -/\n'
                  'def localsName : String := "locals"\n')
 
 
+NOTE = '''/-
+  Expressions of the source that CAN raise on host objects, and how this translation / the model treat them:
+
+  modelled as probes with a "raises" outcome (Heap.Probe), guarded or not as the extracted constants say:
+    str(value) [safeStrCatches], len(value) [lenGuarded], tuple(value), isinstance(value, Exception), value.args,
+    hasattr(value, '__dict__'), value.__dict__ [childrenGuarded], _self.__class__.__name__ [selfClassGuarded].
+
+  ASSUMED NOT TO RAISE (facts of the model that have no "raises" outcome — the domain of every "for every heap" theorem):
+    type(value).__name__ and str(type(value))   (PyObj.tyName / tyRepr: a metaclass whose `__name__` / `__repr__` raises)
+    name.startswith(..), name[len(prefix):]     (var_modifiers / correct_names on a key that is an instance of a str
+                                                 SUBCLASS overriding these methods)
+    len(text), text[:n]                         (truncate_string on the result of str(value) when `__str__` returns an
+                                                 instance of a str subclass overriding `__len__` / `__getitem__`)
+    list(d.keys()), k in d, d[k] of an exact dict  (PyObj.dictItems is a plain list: a key whose `__hash__` raises after
+                                                 insertion makes the code take the guarded no-children path)
+    id(value), type(value), str(total), frame.f_locals / f_lineno / f_code  (cannot run host code)
+  The first three are unguarded in the source (notes/probes/p20_c06_assumed_not_to_raise.py shows each aborting a snapshot).
+-/
+'''
+
+
 def generate():
     vp, vsp, bfs = load(VP), load(VSP), load(BFS)
     ac, sa, fc = load(AC), load(SA), load(FC)
-    parts = [header('variable collector decision logic', [VP, VSP, BFS, FC, AC, SA]), 'namespace Extracted.Collector\n']
+    parts = [header('variable collector decision logic', [VP, VSP, BFS, FC, AC, SA]), NOTE, 'namespace Extracted.Collector\n']
     gen_lists(parts, vp)
     gen_defaults(parts, vsp, sa)
     gen_queue(parts, bfs)
